@@ -38,32 +38,34 @@ Theorem c12_section_carries : forall t,
 Proof. exact sec_of_tcv_fields. Qed.
 Print Assumptions c12_section_carries.
 
-(* Read by mid: the transceiver's mid selects exactly its own section -- FULL
-   statement (no premise on the mids):
-     forall t, In t (p_tcvs p') -> filter (has_mid (t_mid t)) (media_secs d) = [sec_of_tcv t]
-   It fails in the faithful model when CreateOffer itself produces two
-   transceivers with the same mid (c12_one_section_per_mid_refuted: an
-   unnumbered transceiver precedes one that took mid "0" from a pending remote
-   offer); it holds whenever the mids after the call are pairwise distinct. *)
-Theorem c12_one_section_per_mid_partial : forall p p' d fx,
+(* Remark (not part of C12, which does not ask for distinct mids -- that is
+   C06): when the mids after the call are pairwise distinct, a transceiver's mid
+   selects exactly its own section ... *)
+Theorem c12_remark_sections_by_mid_when_mids_distinct : forall p p' d fx,
   create_offer p = (p', ok_desc d, fx) ->
   NoDup (map t_mid (p_tcvs p')) ->
   forall t, In t (p_tcvs p') ->
     filter (has_mid (t_mid t)) (media_secs d) = [sec_of_tcv t].
 Proof. exact one_section_per_mid. Qed.
-Print Assumptions c12_one_section_per_mid_partial.
+Print Assumptions c12_remark_sections_by_mid_when_mids_distinct.
 
-Theorem c12_one_section_per_mid_refuted :
+(* ... and CreateOffer itself can produce two transceivers with the same mid
+   (an unnumbered transceiver precedes one that took mid "0" from a pending
+   remote offer); each still has exactly one section carrying its own mid
+   (c12_sections). Recorded under C06. *)
+Theorem c12_remark_mids_may_collide_witness :
   exists p' d fx,
     create_offer (run_ops (pc_init false) dup_mid_history) = (p', ok_desc d, fx)
     /\ map t_mid (p_tcvs p') = ["0"; "0"].
 Proof. exact dup_mid_refuted. Qed.
-Print Assumptions c12_one_section_per_mid_refuted.
+Print Assumptions c12_remark_mids_may_collide_witness.
 
-(* An application section is present exactly when a data channel was created,
-   or AlwaysNegotiateDataChannels is set, or -- the offer being built against a
-   current remote description -- the remote description in use (pending, else
-   current) has one. *)
+(* An application section is present exactly when a data channel was created
+   or AlwaysNegotiateDataChannels is set. "A data channel was created" covers
+   both sides: locally (CreateDataChannel: want_data) or by the remote peer and
+   negotiated -- then the remote description in use (pending, else current)
+   carries an application section, which the offer, being built against a
+   current remote description, keeps. *)
 Theorem c12_app_iff : forall p p' d fx,
   create_offer p = (p', ok_desc d, fx) ->
   (existsb is_app (d_secs d) = true <->
@@ -73,16 +75,15 @@ Theorem c12_app_iff : forall p p' d fx,
 Proof. exact app_iff_of_offer. Qed.
 Print Assumptions c12_app_iff.
 
-(* The property text's two-way reading ("exactly when a data channel was created
-   or AlwaysNegotiateDataChannels is set", taken for this side only) does not
-   hold: after answering an offer that had an application section, the next
-   offer mirrors it (JSEP keeps negotiated m-sections). *)
-Theorem c12_app_iff_local_only_refuted :
+(* Remark: the remote disjunct is needed -- after answering an offer that had an
+   application section, this side's next offer mirrors it although no local
+   data channel exists (JSEP keeps negotiated m-sections). *)
+Theorem c12_remark_app_section_mirrors_remote_witness :
   exists p p' d fx,
     create_offer p = (p', ok_desc d, fx)
     /\ want_data p = false /\ existsb is_app (d_secs d) = true.
 Proof. exact app_literal_refuted. Qed.
-Print Assumptions c12_app_iff_local_only_refuted.
+Print Assumptions c12_remark_app_section_mirrors_remote_witness.
 
 (* addSenderSDP, for a sender with a track, by attribute key:
    msid "<stream> <track>" once per encoding; a=ssrc lines for exactly the
@@ -149,7 +150,7 @@ Example c12_sections_nontrivial :
     /\ attrs_with "ssrc-group" (sc_attrs (hd (sec_of_tcv (new_tcv Audio Inactive None)) (d_secs d))) = ["FID 11 12"].
 Proof. vm_compute. eexists _, _, _. repeat split. Qed.
 
-(* the refutation witness is a reachable state: answer an offer that has an
+(* the remark's witness is a reachable state: answer an offer that has an
    application section, then offer *)
 Example c12_app_witness_reachable :
   let p := run_ops (pc_init false)
